@@ -235,6 +235,18 @@ class CostExec(SymExec):
                 num = num.args[0]
             if U(num) == U(e.right.args[0]):
                 return tagged('unit', e, var=U(num))
+        # ---- fractions of a split, second spelling: X / np.linalg.norm(X, 1)  (non-negative weights: the L1 norm is the sum) ---------
+        if isinstance(e.op, ast.Div) and isinstance(e.right, ast.Call) and U(e.right.func) in ('np.linalg.norm', 'numpy.linalg.norm') \
+                and len(e.right.args) == 2 and U(e.right.args[1]) == '1' and U(e.right.args[0]) == U(e.left):
+            note = 'A-S: the weights of an explicit budget split are non-negative (their L1 norm is their sum)'
+            if note not in w.assumptions:
+                w.assumptions.append(note)
+            return tagged('simplex', e, var=U(e.left))
+        # a simplex scaled by a scalar: unpacking gives scalar * fraction
+        if isinstance(e.op, ast.Mult):
+            for a, av, b_ in ((tl, l, r), (tr, r, l)):
+                if a is not None and a.kind == 'simplex' and isinstance(b_, Alg):
+                    return tagged('simplex', e, var=a.var, scale=(getattr(a, 'scale', None) * b_ if getattr(a, 'scale', None) is not None else b_))
         # ---- fractions of a split: np.array(S) / sum(S) ----------------------------------------------------
         if isinstance(e.op, ast.Div) and isinstance(e.right, ast.Call) and U(e.right.func) in ('sum', 'np.sum') and len(e.right.args) == 1:
             num = e.left
@@ -623,8 +635,9 @@ class CostExec(SymExec):
         t = tag_of(value, 'simplex')
         if t is not None and isinstance(target, (ast.Tuple, ast.List)):
             names = target_names(target)
+            sc = getattr(t, 'scale', None)
             for n in names:
-                self.env[n] = Alg(Rat.sym('frac:%s' % n))
+                self.env[n] = Alg(Rat.sym('frac:%s' % n)) * sc if sc is not None else Alg(Rat.sym('frac:%s' % n))
             self.world.simplex = getattr(self.world, 'simplex', []) + [names]
             return
         t = tag_of(value, 'tuple')
